@@ -259,6 +259,12 @@ def _run(ctx, api, DefaultParameters, res, rng, deep):
         maxwell_parts = [f.split("-")[1] for f in focus if f in ("maxwell-M", "maxwell-E")]
     worst = {}
     ladder_rows = []
+    seen = {}
+
+    def cex(key, what, **detail):  # keep at most three counterexamples per key, count the rest
+        seen[key] = seen.get(key, 0) + 1
+        if seen[key] <= 3:
+            res.counterexample(key, what, **detail)
 
     for pi, (nA, nB) in enumerate(pairs):
         gA, gB, info = make_pair(api, nA, nB, rng)
@@ -314,7 +320,7 @@ def _run(ctx, api, DefaultParameters, res, rng, deep):
                                          nontrivial=nontrivial,
                                          sample=dict(cinfo, rel_err=err, max_abs=scale) if order == 4 else None)
                                 if not err <= TOL:
-                                    res.counterexample(
+                                    cex(
                                         f"{name}-vs-tested-potential-{tk[0]}{tk[1]}-{rk[0]}{rk[1]}".lower(),
                                         f"{name} boundary matrix between disjoint grids differs from the Galerkin-tested "
                                         f"potential: relative deviation {err:.3e} (tolerance {TOL:g})",
@@ -353,7 +359,7 @@ def _run(ctx, api, DefaultParameters, res, rng, deep):
                         res.case(("maxwell-M", tag, order, info["A"], info["B"]), nontrivial=nontrivial,
                                  sample=dict(cinfo, rel_err=err, max_abs=scale) if order == 3 else None)
                         if not err <= TOL:
-                            res.counterexample(
+                            cex(
                                 "maxwell-mfield-vs-tested-potential-snc0-rwg0",
                                 f"Maxwell magnetic field boundary matrix differs from the tested tangential trace (H x n) "
                                 f"of the magnetic potential: relative deviation {err:.3e} (tolerance {TOL:g})",
@@ -373,7 +379,7 @@ def _run(ctx, api, DefaultParameters, res, rng, deep):
                     res.stats["efield_worst_shrink"] = max(res.stats.get("efield_worst_shrink", 0.0), last / first)
                     res.stats["efield_worst_last"] = max(res.stats.get("efield_worst_last", 0.0), last)
                     if not ok:
-                        res.counterexample(
+                        cex(
                             "maxwell-efield-vs-tested-potential-ladder-snc0-rwg0",
                             f"Maxwell electric field boundary matrix does not approach the tested electric potential as the "
                             f"quadrature order grows: relative differences {[(o, float(f'{e:.2e}')) for o, e in rungs]} "
@@ -383,6 +389,7 @@ def _run(ctx, api, DefaultParameters, res, rng, deep):
                             vertices_B=gB.vertices.tolist(), elements_B=gB.elements.tolist())
         ctx.log(f"  maxwell {maxwell_parts}: {time.time() - t0:.1f}s")
 
+    res.stats["counterexamples_seen"] = dict(seen)
     res.stats["worst_rel_err"] = {k: float(f"{v:.3e}") for k, v in sorted(worst.items())}
     res.stats["worst_rel_err_overall"] = max(worst.values()) if worst else None
     res.stats["margin_tol_over_worst"] = (TOL / max(worst.values())) if worst and max(worst.values()) > 0 else None
